@@ -336,8 +336,101 @@ fn to_replay(run: &Run, n: u32, nworkers: usize) -> Value {
     rj
 }
 
-pub fn case(_batch: &str, tier: &str, i: u64) -> CaseOut {
+/// Worker counts of the native batch: real threads, as the example spawns them.
+fn native_plan(quick: bool) -> Vec<u32> {
+    let mut v: Vec<u32> = vec![2, 3, 4, 5, 8, 12, 16, 17, 18, 24, 32, 33, 48, 64];
+    if !quick {
+        v.extend([6, 7, 9, 10, 15, 20, 28, 40, 56, 96, 128]);
+        let w = v.clone();
+        for _ in 0..8 {
+            v.extend(w.iter());
+        }
+    }
+    v
+}
+
+/// The example run for real: n OS threads, each building its own scoped
+/// evaluator from the shared Arc'd board/ranges and draining it concurrently;
+/// whatever joins is merged. The OS decides this schedule (not replayable): a
+/// supplement to the simulated workers, which decide the property.
+fn native_case(n: u32, seed: u64) -> Option<(String, String, Value)> {
+    let mut rng = Rng::new(seed);
+    let scen = gen_scenario(&mut rng, &ScenParams { max_players: 3, max_product: 24, allow_zero_players: false, hash_seeds: false });
+    let scopes = scopes_for(n).ok()?;
+    if tiling_defect(&scopes).is_some() {
+        return None;
+    }
+    let ranges = std::sync::Arc::new(scen.build_ranges());
+    let flop = scen.flop;
+    let cap = 64 + 8 * scen.product().max(1) * (NPOS as u64 + 2);
+    let (u, complete) = drain(&flop, &ranges, &[], cap);
+    if !complete || !matches!(u.last(), Some(Out::End)) {
+        return None;
+    }
+    let mut want: Vec<(u8, u8, u64)> = u.iter().filter_map(|o| match o { Out::Yield { t, r, h } => Some((*t, *r, *h)), _ => None }).collect();
+    want.sort();
+    for round in 0..3 {
+        let barrier = std::sync::Arc::new(std::sync::Barrier::new(scopes.len()));
+        let hs: Vec<_> = scopes
+            .iter()
+            .cloned()
+            .map(|sc| {
+                let ranges = ranges.clone();
+                let bar = barrier.clone();
+                std::thread::Builder::new().stack_size(16 << 20).spawn(move || {
+                    bar.wait();
+                    drain(&flop, &ranges, &[sc], cap).0
+                })
+            })
+            .collect();
+        let mut merged: Vec<(u8, u8, u64)> = vec![];
+        let mut problem: Option<String> = None;
+        for (wi, h) in hs.into_iter().enumerate() {
+            match h {
+                Ok(h) => match h.join() {
+                    Ok(outs) => {
+                        for o in outs {
+                            match o {
+                                Out::Yield { t, r, h } => merged.push((t, r, h)),
+                                Out::Panic(m) => problem = problem.or(Some(format!("worker {wi} of {n} panicked: {m}"))),
+                                Out::End => {}
+                            }
+                        }
+                    }
+                    Err(_) => problem = problem.or(Some(format!("worker {wi} of {n}: panic escaped the thread"))),
+                },
+                Err(e) => {
+                    eprintln!("HARNESS ERROR: cannot spawn worker thread: {e}");
+                    std::process::exit(2);
+                }
+            }
+        }
+        merged.sort();
+        if problem.is_none() && merged != want {
+            problem = Some(format!("{n} concurrent workers merged to {} showdowns, the single-threaded run has {} (round {round})", merged.len(), want.len()));
+        }
+        if let Some(p) = problem {
+            let okey = if p.contains("panic") { "native_worker_panic" } else { "native_conservation" };
+            return Some((okey.to_string(), format!("{}: {p} (OS schedule: may not replay)", scen.short()), json!({"kind":"c16_native","n":n,"seed":seed.to_string()})));
+        }
+    }
+    None
+}
+
+pub fn case(batch: &str, tier: &str, i: u64) -> CaseOut {
     let vs = verif_seed();
+    if batch == "native" {
+        let plan = native_plan(tier == "quick");
+        let n = plan[i as usize % plan.len()];
+        let seed = run_seed(vs, "C16", "native", i);
+        let mut out = CaseOut { index: i, seed, evals: 1, ..Default::default() };
+        *out.probes.entry("native_concurrent_machines".into()).or_insert(0) += 1;
+        if n >= 17 {
+            *out.probes.entry("native_machines_with_17plus_workers".into()).or_insert(0) += 1;
+        }
+        out.violation = native_case(n, seed);
+        return out;
+    }
     let plan = cons_plan(vs, tier == "quick");
     let (n, faults_on) = plan[i as usize % plan.len()];
     let seed = run_seed(vs, "C16", if faults_on { "cons-f" } else { "cons" }, i);
@@ -396,6 +489,16 @@ pub fn eval(v: &Value) -> Option<(String, String)> {
                 Err(m) => Some(("tiling:panic".into(), m)),
             }
         }
+        "c16_native" => {
+            let n = v["n"].as_u64().unwrap_or(2) as u32;
+            let seed: u64 = v["seed"].as_str()?.parse().ok()?;
+            for _ in 0..10 {
+                if let Some((k, d, _)) = native_case(n, seed) {
+                    return Some((k, d));
+                }
+            }
+            None
+        }
         _ => {
             let mut run = Run::from_json(v).ok()?;
             let n = v["n"].as_u64().unwrap_or(0);
@@ -417,6 +520,9 @@ pub fn eval(v: &Value) -> Option<(String, String)> {
 }
 
 fn minimise_json(replay: &Value, _okey: &str, pred: &dyn Fn(&Value) -> bool) -> (Value, usize) {
+    if replay["kind"].as_str() == Some("c16_native") {
+        return (replay.clone(), 0);
+    }
     let Ok(run) = Run::from_json(replay) else { return (replay.clone(), 0) };
     let n = replay["n"].as_u64().unwrap_or(0) as u32;
     let nworkers = replay["nworkers"].as_u64().unwrap_or(run.specs.len() as u64) as usize;
@@ -568,6 +674,30 @@ pub fn run(tier: &str) -> i32 {
             }
         }
     }
+    // native supplement: the example's n real threads, concurrently
+    {
+        let nn = native_plan(quick).len() as u64;
+        let chunks = run_batch("C16", "native", nn, 4, tier, false);
+        for (ci, ch) in chunks.iter().enumerate() {
+            let chunk_first = ci as u64 * 4;
+            if let Some((i, how)) = &ch.died {
+                ev.violations.push(Violation {
+                    property: "C16".into(),
+                    oracle: "process_died".into(),
+                    key: format!("process_died:history:native:{chunk_first}..={i}"),
+                    detail: format!("the process running the concurrent workers ended with {how} at case {i}"),
+                    seed: vs,
+                    replay: json!({"kind":"chunk","batch":"native","first":chunk_first,"upto":i,"tier":tier,"expected_oracle":"process_died"}),
+                });
+            }
+            for c in &ch.cases {
+                ev.merge_case(c);
+                if c.violation.is_some() && !ev.violations.iter().any(|v| v.oracle.starts_with("native")) {
+                    ev.violations.push(settle_violation("C16", "native", tier, false, chunk_first, c, &minimise_json, &key_json));
+                }
+            }
+        }
+    }
     ev.extra.insert("event_log_digest".into(), json!(format!("{:016x}", logfold.get())));
     ev.extra.insert("components".into(), json!({
         "real": ["examples/multi-thread/scope.rs::calculate_scopes", "FlopExhaustiveEvaluator::{new,scope,into_iter}", "iterator next()", "Showdown", "MadeHand", "HandRange collect/clone"],
@@ -583,7 +713,7 @@ pub fn replay(v: &Value) -> Option<(String, String)> {
     match r["kind"].as_str().unwrap_or("") {
         "chunk" => replay_chunk("C16", r),
         "c16_tiling" => eval(r).map(|(k, d)| (format!("{k}:n={}", r["n"].as_u64().unwrap_or(0)), d)),
-        "c16_conservation" => eval_in_child("C16", r, false).map(|(k, d)| (key_json(&k, r), d)),
+        "c16_conservation" | "c16_native" => eval_in_child("C16", r, false).map(|(k, d)| (key_json(&k, r), d)),
         _ => None,
     }
 }
